@@ -129,6 +129,12 @@ SHARDS.update({
     "urwid/vterm.py:TermCanvas.sgi_to_attrspec": (6, 4),
 })
 
+# contracts/C10_editgeo.py: the two functions that go through the whole chain translation -> cursor cell -> line position
+SHARDS.update({
+    "urwid/widget/edit.py:Edit.keypress#up-down-home-end": (8, 9),
+    "urwid/widget/edit.py:Edit.move_cursor_to_coords": (6, 4),
+    "urwid/widget/edit.py:Edit.get_line_translation": (3, 3),
+})
 SHARDS.update({
     # palette registration (contracts/C17_palette.py): the first two choices are the None / text alternatives of the two
     # high-colour fields (primary) and name x form of mono (mono-forms)
